@@ -46,7 +46,7 @@ theorem mem_mergeV (inh : List VF) (ds : List VDecl) (n : Nat) (p : Bool) :
 mutual
 /-- **`get_virtual_funcs` = final overriders** (hierarchies of any depth and width) -/
 theorem mem_vfuncs : (c : Cls) → (n : Nat) → (p : Bool) → ((⟨n, p⟩ : VF) ∈ vfuncs c ↔ FinalOv c n p)
-  | .mk bases dctor octor cctor mctor dtor fields vfns, n, p => by
+  | .mk bases dctor octor cctor mctor dtor massign fields vfns, n, p => by
     have ih : ∀ n p, ((⟨n, p⟩ : VF) ∈ vfuncsB bases ↔ InhOv bases n p) := fun n p => mem_vfuncsB bases n p
     simp only [vfuncs]
     rw [mem_mergeV]
